@@ -1,0 +1,8 @@
+//go:build !verif
+
+package internal
+
+import "time"
+
+// verifOnReset is a no-op in the default build (see verif_timer_on.go).
+func verifOnReset(*EventTimer, time.Duration) {}
